@@ -11,6 +11,7 @@ import (
 
 	"verifharness/gen"
 	"verifharness/prng"
+	"verifharness/simio"
 )
 
 // C06: every input ends in a result or an error, never a crash or a hang.
@@ -32,11 +33,13 @@ func (c06) Rule() string {
 // type below that (a clean mismatch error).
 type c06Leaf struct{ Name string }
 type c06Inner = struct {
+	hidden                                                                 any `bcl:"level"` // unexported and tagged: must be refused, not set
 	Name                                                                   string
 	F, Ff, G, Opt, Level, Remote, Field, Enabled, LocalPort, MaxLatency, H1 any
 	Extras, Tunnel, Server, T1, Blk, Point, Db, AB, T                      c06Leaf
 }
 type c06Target = struct {
+	hidden                                                                 any `bcl:"opt"` // unexported and tagged: must be refused, not set
 	Name                                                                   string
 	F, Ff, G, Opt, Level, Remote, Field, Enabled, LocalPort, MaxLatency, H1 any
 	Extras, Tunnel, Server, T1, Blk, Point, Db, AB, T                      c06Inner
@@ -255,7 +258,7 @@ func (c06) Run(t *testing.T, sc *Scenario) *Outcome {
 	}
 	// in memory
 	var prog *bcl.Prog
-	var out, log bytes.Buffer
+	var out, log simio.Bounded
 	call("Parse", func() error {
 		var err error
 		prog, err = bcl.Parse(sc.Src, sc.Name, bcl.OptOutput(&out), bcl.OptLogger(&log), bcl.OptDisasm(sc.Opts&OptDisasm != 0), bcl.OptStats(sc.Opts&OptStats != 0))
@@ -273,26 +276,26 @@ func (c06) Run(t *testing.T, sc *Scenario) *Outcome {
 		call("Dump", func() error { return prog.Dump(&bytes.Buffer{}) })
 	}
 	call("Interpret", func() error {
-		var o2, l2 bytes.Buffer
+		var o2, l2 simio.Bounded
 		_, _, err := bcl.Interpret(sc.Src, bcl.OptOutput(&o2), bcl.OptLogger(&l2))
 		return err
 	})
 	call("Unmarshal", func() error {
-		var o2, l2 bytes.Buffer
+		var o2, l2 simio.Bounded
 		return bcl.Unmarshal(sc.Src, &UTarget{}, bcl.OptOutput(&o2), bcl.OptLogger(&l2))
 	})
 	call("Unmarshal(struct target)", func() error {
-		var o2, l2 bytes.Buffer
+		var o2, l2 simio.Bounded
 		return bcl.Unmarshal(sc.Src, &c06Target{}, bcl.OptOutput(&o2), bcl.OptLogger(&l2))
 	})
 	if strings.HasPrefix(sc.Class, "bind-values") || sc.Idx%7 == 0 {
 		// two distinct struct types that share a name, of different sizes, one after the other
 		call("Unmarshal(same-named type A)", func() error {
-			var o2, l2 bytes.Buffer
+			var o2, l2 simio.Bounded
 			return bcl.Unmarshal(sc.Src, localCfgA(), bcl.OptOutput(&o2), bcl.OptLogger(&l2))
 		})
 		call("Unmarshal(same-named type B)", func() error {
-			var o2, l2 bytes.Buffer
+			var o2, l2 simio.Bounded
 			type cfg struct {
 				Name string
 				F    any `bcl:"listen"`
@@ -301,7 +304,7 @@ func (c06) Run(t *testing.T, sc *Scenario) *Outcome {
 		})
 	}
 	call("Unmarshal(slice target)", func() error {
-		var o2, l2 bytes.Buffer
+		var o2, l2 simio.Bounded
 		return bcl.Unmarshal(sc.Src, &[]c06Target{}, bcl.OptOutput(&o2), bcl.OptLogger(&l2))
 	})
 	if reached {
